@@ -2269,8 +2269,11 @@ PREFIX (_translate) (region_type_t *region, int x, int y)
     {
         region->extents.x2 = region->extents.x1;
         region->extents.y2 = region->extents.y1;
-        FREE_DATA (region);
-        region->data = pixman_region_empty_data;
+        if (!PIXREGION_NAR (region))
+        {
+            FREE_DATA (region);
+            region->data = pixman_region_empty_data;
+        }
         return;
     }
 
